@@ -118,13 +118,13 @@ Definition ince (e : option fidrec) : option fidrec :=
 
 Definition dece (e : option fidrec) : option fidrec :=
   match e with
-  | Some r => if (0 <? f_ref r - 1)%Z then Some (setref (f_ref r - 1) r) else None
+  | Some r => if (negb (f_ref r - 1 =? 0)%Z) then Some (setref (f_ref r - 1) r) else None
   | None => None
   end.
 
 Definition dcnt (e : option fidrec) : nat :=
   match e with
-  | Some r => if (0 <? f_ref r - 1)%Z then 0%nat else 1%nat
+  | Some r => if (negb (f_ref r - 1 =? 0)%Z) then 0%nat else 1%nat
   | None => 0%nat
   end.
 
@@ -152,7 +152,7 @@ Lemma fget_decref : forall t k k',
   fget (fst (decref t k)) k' = if k =? k' then dece (fget t k') else fget t k'.
 Proof.
   intros. unfold decref. destruct (fget t k) eqn:E.
-  - destruct (0 <? f_ref f - 1)%Z eqn:EZ; simpl.
+  - destruct (negb (f_ref f - 1 =? 0)%Z) eqn:EZ; simpl.
     + rewrite fget_fset. destruct (k =? k') eqn:E1; auto.
       apply N.eqb_eq in E1; subst. rewrite E. simpl. rewrite EZ. reflexivity.
     + rewrite fget_fdel. destruct (k =? k') eqn:E1; auto.
@@ -169,7 +169,7 @@ Lemma count_destroy_decref : forall t k k',
   count_destroy k' (snd (decref t k)) = if k =? k' then dcnt (fget t k') else 0%nat.
 Proof.
   intros. unfold decref. destruct (fget t k) eqn:E.
-  - destruct (0 <? f_ref f - 1)%Z eqn:EZ; simpl.
+  - destruct (negb (f_ref f - 1 =? 0)%Z) eqn:EZ; simpl.
     + destruct (k =? k') eqn:E1; auto.
       apply N.eqb_eq in E1; subst. rewrite E. simpl. rewrite EZ. reflexivity.
     + unfold count_destroy. simpl. destruct (k =? k') eqn:E1; auto.
@@ -187,7 +187,7 @@ Proof. intros. unfold upd_fid. destruct (fget t k); auto using nodup_fset. Qed.
 Lemma nodup_decref : forall t k, NoDup (map fst t) -> NoDup (map fst (fst (decref t k))).
 Proof.
   intros. unfold decref. destruct (fget t k); auto.
-  destruct (0 <? f_ref f - 1)%Z; simpl; auto using nodup_fset, nodup_fdel.
+  destruct (negb (f_ref f - 1 =? 0)%Z); simpl; auto using nodup_fset, nodup_fdel.
 Qed.
 
 Lemma nodup_fidnew : forall t k t', NoDup (map fst t) -> fidnew t k = Some t' -> NoDup (map fst t').
@@ -199,7 +199,7 @@ Qed.
 Lemma decref_events : forall t k, Forall (fun e => is_fwd e = false) (snd (decref t k)).
 Proof.
   intros. unfold decref. destruct (fget t k); simpl; auto.
-  destruct (0 <? f_ref f - 1)%Z; simpl; auto.
+  destruct (negb (f_ref f - 1 =? 0)%Z); simpl; auto.
 Qed.
 
 (* ---------- structure of [post] ---------- *)
